@@ -883,6 +883,53 @@ pub fn run_c18(tier: Tier, seed: u64) -> i32 {
         acc.class_n("names-every-code-point-and-pair-valid", ntc.load(Ordering::Relaxed));
         violation = found.lock().unwrap().take();
     }
+    // ---- directory entries: the full grid of boundary values (every attribute byte x both FAT types x
+    //      boundary clusters x boundary sizes), and every byte value at every position of the name field
+    if violation.is_none() {
+        let clusters: [u32; 10] = [0, 1, 2, 0xFFFF, 0x10000, 0x0001_0002, 0x0FFF_FFF6, 0x0FFF_FFF7, 0x0FFF_FFFF, 0x0ABC_1234];
+        let sizes: [u32; 7] = [0, 1, 511, 512, 1 << 31, u32::MAX, 0x1234_5678];
+        let t = crate::mkfs::Times { cdate: 0x5A21, ctime: 0x6B2C, ctenths: 0, mdate: 0x0021, mtime: 0xBF7D, adate: 0 };
+        let mut n = 0u64;
+        'grid: for attr in 0u16..256 {
+            for fat32 in [false, true] {
+                for (ci, &cl) in clusters.iter().enumerate() {
+                    for (si, &sz) in sizes.iter().enumerate() {
+                        let cl = if fat32 { cl } else { cl & 0xFFFF };
+                        let raw = crate::mkfs::short_entry(b"GRID    BIN", attr as u8, cl, sz, &t, fat32);
+                        let c = EntryCase { raw, fat32, block: (attr as u32) << 8 | ci as u32, off: ((si as u32 * 5 + ci as u32) % 16) * 32 };
+                        n += 1;
+                        if let Err(f) = entry_check(&c) {
+                            violation = Some((f, serde_json::to_value(CodecCase::Entry(c)).unwrap()));
+                            break 'grid;
+                        }
+                    }
+                }
+            }
+        }
+        if violation.is_none() {
+            'name: for pos in 0usize..11 {
+                for b in 1u16..256 {
+                    if b as u8 == b' ' || (pos == 0 && (b as u8 == 0xE5 || b as u8 == 0x05)) {
+                        continue;
+                    }
+                    for fat32 in [false, true] {
+                        let mut name = *b"NAMEBYTEEXT";
+                        name[pos] = b as u8;
+                        let raw = crate::mkfs::short_entry(&name, 0x20, 0x1234, 77, &t, fat32);
+                        let c = EntryCase { raw, fat32, block: 9, off: 64 };
+                        n += 1;
+                        if let Err(f) = entry_check(&c) {
+                            violation = Some((f, serde_json::to_value(CodecCase::Entry(c)).unwrap()));
+                            break 'name;
+                        }
+                    }
+                }
+            }
+        }
+        acc.evaluations += n;
+        acc.class_n("entries-boundary-grid", n);
+        names_nt += n;
+    }
     // ---- generated names and entries
     let mut out = Outcome { acc, violation, wall_s: 0.0 };
     let mut distinct_gen = 0usize;
@@ -943,7 +990,7 @@ pub fn run_c18(tier: Tier, seed: u64) -> i32 {
         tier,
         seed,
         level: "exploration",
-        rule: "timestamps: (date,time) field pairs and calendar timestamps enumerated; names: every string up to length 3 (4 in thorough) over a 61-symbol alphabet covering every class the parser distinguishes and the edges of the Latin-1 letter blocks, every code point U+0000..U+02FF in nine position classes of base name and extension, every pair of ISO-8859-1 code points as a base name and as an extension, plus proptest-generated valid / one-mutation / random strings up to length 13; directory entries: proptest over boundary values of every field, both FAT types. distinct_nontrivial counts enumerated names that the reference accepts or rejects for a reason other than their first character (distinct by construction, counted) plus generated names longer than 3 and entries (distinct by hash)",
+        rule: "timestamps: (date,time) field pairs and calendar timestamps enumerated; names: every string up to length 3 (4 in thorough) over a 61-symbol alphabet covering every class the parser distinguishes and the edges of the Latin-1 letter blocks, every code point U+0000..U+02FF in nine position classes of base name and extension, every pair of ISO-8859-1 code points as a base name and as an extension, plus proptest-generated valid / one-mutation / random strings up to length 13; directory entries: the full grid of all 256 attribute bytes x both FAT types x 10 boundary clusters x 7 boundary sizes and every byte value at every name position (enumerated, distinct by construction), plus proptest over boundary and random values of every field, both FAT types. distinct_nontrivial counts enumerated names that the reference accepts or rejects for a reason other than their first character (distinct by construction, counted) plus generated names longer than 3 and entries (distinct by hash)",
         exhaustive: Some(exhaustive_ts),
         assumptions: vec![
             "DEL (0x7f) in a name is treated as don't-care; the letters of ISO-8859-1 with an upper-case partner inside it (U+00E0..=U+00FE without the division sign) must be stored upper-cased, every other code point as typed".into(),
